@@ -24,7 +24,7 @@ import (
 )
 
 var (
-	mode     = flag.String("mode", "stress", "stress | lostwake | deadstore")
+	mode     = flag.String("mode", "stress", "stress | lostwake | deadstore | integ")
 	runs     = flag.Int("runs", 100, "stress runs per group")
 	traceDir = flag.String("tracedir", "", "directory for ndjson traces")
 )
@@ -430,6 +430,8 @@ func main() {
 	case "deadstore":
 		deadstore(rep)
 		rep.DistinctNontrivial = rep.Evaluations
+	case "integ":
+		integ(rep)
 	}
 	rep.Write(*vh.Out)
 }
